@@ -271,6 +271,26 @@ func init() {
 				}
 				emit(g, "zero-length-section")
 			}
+			// one flipped byte inside a block's data / inside the digest of its CID (non-identity
+			// blocks hash differently; identity blocks no longer equal their digest)
+			for i, b := range a.blks {
+				cl := b.Cid.ByteLen()
+				sl := cl + len(b.Data)
+				cidStart := secStart[i] + uvarintLen(uint64(sl))
+				dl := digestLen(b.Cid.Hash())
+				for t := 0; t < 3; t++ {
+					if len(b.Data) > 0 {
+						g := append([]byte(nil), a.file...)
+						g[cidStart+cl+r.Intn(len(b.Data))] ^= pick(r, []byte{0x01, 0x80, 0xff})
+						emit(g, "data-flip")
+					}
+					if dl > 0 {
+						g := append([]byte(nil), a.file...)
+						g[cidStart+cl-dl+r.Intn(dl)] ^= pick(r, []byte{0x01, 0x80, 0xff})
+						emit(g, "digest-flip")
+					}
+				}
+			}
 			// byte flips anywhere
 			for t := 0; t < 80; t++ {
 				g := append([]byte(nil), a.file...)
